@@ -8,8 +8,14 @@
        for non-NaN, canonical NaN otherwise, under the stated law of the decimal-text oracle), Vector3 (the tag-array pattern);
        BrickColor comes back as Int32 of its number (documented normalisation);
      * forward references and the SharedStrings dictionary are resolved by the second pass (computed instance);
-     * refutations of the property as stated, as the code is pinned: Content::Object panics the writer (F13); with the
-       default options an instance of a class the database does not know loses its Name.
+     * the reader step repaired by /repo 9d6f480a, for every input: whenever reflection is in use and the database has no
+       `Name` descriptor for the class (unknown class, class deriving from Object), the Name element the writer writes is
+       read and kept; computed through the whole codec with the default options (parent and child of unknown classes);
+     * the writer step repaired by /repo 62703803 (computed instance over a one-class database): an instance carrying a
+       legacy migrating property AND the property it migrates to keeps the explicit value through the round trip;
+     * refutation of the property as stated, in the current tree: Content::Object panics the writer (F13);
+     * for the record, about the `_pinned` definitions (the code before those commits): the Name of an instance of an
+       unknown class was lost with the default options; the legacy value won over the explicit one.
    NOT proven: the forest-level theorem for arbitrary DOMs (xml_decode (channel (xml_encode d)) ~ d); it is covered by
    the xmlfile correspondence plus the implementation-side round-trip oracle only.
    Each theorem is the full statement followed by `exact <lemma>`. *)
@@ -165,14 +171,41 @@ Theorem C02_forward_ref_and_shared_string_resolved :
         mkInst 2 0 (B "Folder") (B "Folder") []].
 Proof. exact forward_ref_and_shared_string_resolved. Qed.
 
-(* ---- refutations of the property as stated (the code as pinned) *)
-Theorem C02_content_object_refuted : forall (o : xoracle) (r : N), write_xml o (VContent (CObject r)) = Some (B "Content", Panic).
-Proof. exact content_object_panics. Qed.
+(* ---- the Name element of a class without a Name descriptor (repaired by /repo 9d6f480a) *)
+Theorem C02_name_of_undescribed_class_is_read :
+  forall (e : xenv) (beh : dbehavior) (class : bytes) (id : N) (a : attrs) (s : bytes) (st : dstate)
+         (props : list (bytes * value)) (rest : list revent),
+  beh <> DNoReflection ->
+  find_desc_xml (xe_db e) (S_ class) "Name" = Ok None ->
+  deserialize_property e beh class id (B "string") (B "Name") st props (RStart (B "string") a :: text_events s ++ REnd (B "string") :: rest)
+  = Ok ((st, bupd (B "Name") (VString s) props), rest).
+Proof. exact name_of_undescribed_class_is_read. Qed.
 
-Theorem C02_name_lost_for_unknown_class_refuted :
-  through EIgnoreUnknown DIgnoreUnknown [mkInst 1 0 (B "Zzz") (B "hello") []] [1] = Ok [mkInst 1 0 (B "Zzz") (B "Zzz") []].
-Proof. exact name_lost_for_unknown_class. Qed.
+Theorem C02_name_kept_for_unknown_class :
+  through EIgnoreUnknown DIgnoreUnknown [mkInst 1 0 (B "Zzz") (B "hello") []; mkInst 2 1 (B "Yyy") (B " a ]]> b ") []] [1]
+  = Ok [mkInst 1 0 (B "Zzz") (B "hello") []; mkInst 2 1 (B "Yyy") (B " a ]]> b ") []].
+Proof. exact name_kept_for_unknown_class. Qed.
 
 Theorem C02_name_kept_with_unknown_properties_retained :
   through EWriteUnknown DReadUnknown [mkInst 1 0 (B "Zzz") (B " hello ]]> ") []] [1] = Ok [mkInst 1 0 (B "Zzz") (B " hello ]]> ") []].
 Proof. exact name_kept_with_read_unknown. Qed.
+
+(* ---- an explicit value of the new property survives beside a legacy migrating one (repaired by /repo 62703803) *)
+Theorem C02_explicit_new_value_wins :
+  (evs <- xml_encode e_mesh EIgnoreUnknown mesh_both [1] ;; revs <- channel evs ;; xml_decode e_mesh DIgnoreUnknown revs)
+  = Ok [mkInst 1 0 (B "Mesh") (B "m") [(B "MeshContent", VContent (CUri (B "explicit")))]].
+Proof. exact explicit_new_value_wins. Qed.
+
+(* ---- refutation of the property as stated (current tree) *)
+Theorem C02_content_object_refuted : forall (o : xoracle) (r : N), write_xml o (VContent (CObject r)) = Some (B "Content", Panic).
+Proof. exact content_object_panics. Qed.
+
+(* ---- for the record: the code before 9d6f480a / 62703803 (`_pinned` definitions of Model/XmlFile.v) *)
+Theorem C02_name_lost_for_unknown_class_pinned :
+  through_pinned EIgnoreUnknown DIgnoreUnknown [mkInst 1 0 (B "Zzz") (B "hello") []] [1] = Ok [mkInst 1 0 (B "Zzz") (B "Zzz") []].
+Proof. exact name_lost_for_unknown_class_pinned. Qed.
+
+Theorem C02_explicit_new_value_lost_pinned :
+  (evs <- xml_encode_pinned e_mesh EIgnoreUnknown mesh_both [1] ;; revs <- channel evs ;; xml_decode e_mesh DIgnoreUnknown revs)
+  = Ok [mkInst 1 0 (B "Mesh") (B "m") [(B "MeshContent", VContent (CUri (B "legacy")))]].
+Proof. exact explicit_new_value_lost_pinned. Qed.
